@@ -131,6 +131,10 @@ def check_invariants(w, rep, case):
             for p, x in enumerate(lst):
                 if x is not None and rack.index(x) != p or rack[p] is not x:
                     rep.violate('rack R%d.%d: index()/[] disagree with iteration' % (f, r), case)
+        allv = fit.modules.items()
+        allm = [x for r in range(3) for x in w.rack(f, r) if x is not None]
+        if list(allv) != allm or len(allv) != len(allm) or any((o in allv) != any(o is x for x in allm) for o in list(w.obj.values()) + [None]):
+            rep.violate('fit %d: modules.items() view disagrees with the three racks' % f, case)
         for k in range(6):
             st = w.set_(f, k)
             got = list(st)
@@ -253,12 +257,12 @@ def run_history(ops, rep):
     return False
 
 
-def oracle(ctx, scale=1):
+def oracle(ctx):
     rep = ctx.report
     stats = {'steps': 0}
     chk = make_checker(rep, stats)
     rnd = ctx.sub_rnd('oracle')
-    for h in range(ctx.n(60, 1200) * scale):
+    for h in range(ctx.n(60, 1200)):
         w = fresh_world()
         g = H.Gen(w, rnd, 0.3, fit_ops=False)
         ops = []
